@@ -18,6 +18,26 @@ NOT_APPLICABLE = {pid: "check not built yet in this round (planned, DESIGN.md se
 
 
 CHECKS = {
+    "C08": {
+        "level": "exploration",
+        "engine": "pure",
+        "technique": "property-based testing (rapid): near-valid program mutation with hostile tokens + byte soups against a no-panic / located-error / proportional-cost oracle; native coverage-guided fuzzing in the thorough tier",
+        "level_text": ("Generated-input search over near-valid MRO texts: every *.mro of the repository and harness-owned seeds, tokenised and edited with 0-3 hostile "
+                       "substitutions (64-bit boundary integers, out-of-range floats, every escape form, empty strings, keywords as identifiers, invalid UTF-8, "
+                       "truncation, nesting to 10^4, 32767+ array dimensions), plus token soups and raw bytes, fed to ParseSourceBytes, UncheckedParse, ParseValExp, "
+                       "FormatSrcBytes under recover. Oracle: no panic, error text carries file:line, time and allocation proportional to input. Exploration."),
+        "level_note": "A Go stack overflow or an out-of-memory kill cannot be recovered and would surface as infrastructure failure (exit 2), not as a violation; time/alloc limits are two orders of magnitude above normal and confirmed three times before they count.",
+        "rule": ("rapid: seed program x 0-3 token-level edits (replace/insert hostile token, same-class replacement, delete, duplicate, swap, deep nesting, huge type dimensions, "
+                 "truncation) and token soups / raw bytes. Non-trivial: >= 5 tokens and (>= 1 edit or soup). Distinct by hash of the input bytes. Classes: compiled / "
+                 "parsed-compile-error / value-expression / syntax-error."),
+        "assumptions": ["position = error text contains ':<line>' or 'line <n>'"],
+        "units": [
+            U("props/lang", "TestC08NearValid", (4000, 10), (60000, 14)),
+            U("props/lang", "TestC08Bytes", (20000, 2), (300000, 2)),
+        ],
+        "fuzz": [{"pkg": "props/lang", "target": "FuzzC08", "thorough": {"seconds": 600}}],
+        "floors": {"quick": {"compiled": 1000, "parsed-compile-error": 1000, "syntax-error": 5000, "edit:replace-same-class": 2000}},
+    },
     "C18": {
         "level": "exploration",
         "engine": "pure",
